@@ -136,6 +136,18 @@ func BuildPool(seed int64, id int) *CallPool {
 		}
 		p.Calls = append(p.Calls, PoolCall{API: "Apply", A: fdoc, B: -1, Patch: pidx, Opts: V5Opts{NegIdx: true, EscapeHTML: true}, Class: "fails-part-way", SharedOpt: -1})
 	}
+	for _, at := range []string{
+		`[{"op":"add","path":"/v","value":{"h":"<&><&>","n":[1,2]}},{"op":"copy","from":"/v","path":"/w"}]`,
+		`[{"op":"replace","path":"/d","value":["a<b",{"x":"&"}]},{"op":"remove","path":"/d/0"},{"op":"copy","from":"/d","path":"/d2"}]`,
+	} {
+		pi := addIn(at)
+		p.PatchInputs = append(p.PatchInputs, pi)
+		pidx := len(p.PatchInputs) - 1
+		for so := range sharedOptSets {
+			p.Calls = append(p.Calls, PoolCall{API: "ApplyWithOptions", A: fdoc, B: -1, Patch: pidx, Opts: sharedOptSets[so], Class: "adds-then-copies", SharedOpt: so})
+		}
+		p.Calls = append(p.Calls, PoolCall{API: "Apply", A: fdoc, B: -1, Patch: pidx, Opts: V5Opts{NegIdx: true, EscapeHTML: true}, Class: "adds-then-copies", SharedOpt: -1})
+	}
 	// a document whose result is larger than 64 KiB (retained and re-checked like every other result)
 	{
 		var sb strings.Builder
